@@ -173,6 +173,29 @@ Proof.
     destruct (nth_error (a_states a) (Z.to_nat q)) as [st'|]; [|discriminate].
     exists st'. split; auto. apply mem_item_In. exact Hc.
 Qed.
+Lemma cert_aut_total : aut_total g a.
+Proof.
+  destruct cert_parts as (_ & _ & H). intros q st it s Hq Hst Hit Es.
+  destruct (H q st Hq Hst) as [_ Hc]. unfold cert_complete_state in Hc. rewrite forallb_forall in Hc.
+  specialize (Hc it Hit). rewrite Es in Hc. apply andb_true_iff in Hc. destruct Hc as [_ Hc].
+  destruct (trans_target a q s) as [q'|]; [eauto|discriminate].
+Qed.
+
+(* every viable prefix is traced by the automaton, and the state it leads to holds the item *)
+Lemma cert_lr0_reached i gamma it : lr0_valid g i gamma it ->
+  exists q st, reach a i gamma q /\ 0 <= q /\ nth_error (a_states a) (Z.to_nat q) = Some st /\
+               In it (closure g (s_kernel st) (s_seed st)).
+Proof.
+  intros Hv.
+  assert (Hr : exists q, reach a i gamma q).
+  { induction Hv as [nt eoi r Hi Hinp Hr|gamma it B r Hv IH Es Et Hr|gamma it X Hv IH Es].
+    - exists i. constructor.
+    - exact IH.
+    - destruct IH as [q Hq]. destruct (cert_aut_complete i gamma q it Hq Hv) as (Hq0 & st & Hst & Hit).
+      destruct (cert_aut_total q st it X Hq0 Hst Hit Es) as [q' Hq']. exists q'. econstructor; eauto. }
+  destruct Hr as [q Hq]. destruct (cert_aut_complete i gamma q it Hq Hv) as (Hq0 & st & Hst & Hit).
+  exists q, st. auto.
+Qed.
 End Cert.
 
 (* ---------- the LALR(1) theorem for a certified automaton ---------- *)
@@ -188,3 +211,14 @@ Qed.
 Theorem lalr_la_sound_cert g a fuel : aut_cert g a = true ->
   forall q it x, In x (la_get (lalr_la g a fuel) q it) -> lalr1 g a q it x.
 Proof. intros H q it x. apply lalr_la_sound; [apply cert_seeds_ok|apply cert_aut_sound]; auto. Qed.
+
+(* every LR(1)-valid lookahead of every viable prefix is found in the table, in the state the prefix leads to *)
+Theorem lalr_la_covers g a fuel : la_cert g a fuel = true ->
+  forall i gamma it x, lr1_valid g i gamma it x ->
+  exists q, reach a i gamma q /\ In x (la_get (lalr_la g a fuel) q it).
+Proof.
+  intros H i gamma it x Hv. pose proof H as H0.
+  unfold la_cert in H. repeat (apply andb_true_iff in H; destruct H as [H ?]).
+  destruct (cert_lr0_reached g a ltac:(assumption) i gamma it (lr1_lr0 _ _ _ _ _ Hv)) as (q & st & Hr & _).
+  exists q. split; auto. apply (proj2 (lalr_la_exact g a fuel H0 q it x)). exists i, gamma. auto.
+Qed.
